@@ -11,8 +11,8 @@ from props.C09 import close, to_pval, assign, fmt_tables
 
 LEVEL = "proof"
 MODULE = "Phil.Props.C20"
-LEVEL_TEXT = 'Lean theorems about the index state machine, every history: the handed-out object equals a fresh extraction of the working parameters (reachable_coherent), pop restores the working set of the matching push (pop_restores, balanced_stack), a refused edit changes nothing, same edit twice (same_edit_twice) — generic over the merge kernel under named laws, and with the laws discharged for the concrete kernel on flat masters (C20Concrete) and nested masters (C20Tree: refetch_exact_tree, pop_restores_tree, same_edit_twice_tree, reached_invariant_tree); the path index is inside the model: after any history the stored index equals reindex of the current working tree, every entry is a live object, nothing visited is missing (index_is_reindex(_scoped), entries_are_live, live_path_is_key, lookup_exact). Tied to /repo by a correspondence run over random histories (update / merge_phil string|object|file with and without only_scope, update_from_python, push / pop / set): working text, cache flags, stack depth, handed-out object and the whole _full_path_index (objects located by identity) after every operation; the oracle evaluates the four clauses after every step.'
-LEVEL_NOTE = 'On nested masters the idempotence law is proved for edits that name no .multiple parameter; elsewhere validated by correspondence. Known finding D37. The style/menu half of the index is not modelled.'
+LEVEL_TEXT = 'Lean theorems about the index state machine, every history: the handed-out object equals a fresh extraction of the working parameters (reachable_coherent), pop restores the working set of the matching push (pop_restores, balanced_stack), a refused edit changes nothing, same edit twice — generic over the merge kernel under named laws, and with the laws discharged for the concrete kernel on flat masters (C20Concrete) and nested masters incl. edits of .multiple definitions (C20Tree, C20Tree2: refetch_exact_tree, pop_restores_tree, merge_closed_form_multi, same_edit_twice_tree_multi, reached_invariant_tree_multi); the path index is inside the model: after any history the stored index equals reindex of the current working tree and every path outside .multiple scopes looks up to exactly the live object(s) (index_is_reindex(_scoped), entries_are_live, live_path_is_key, lookup_exact_tree). Tied to /repo by a correspondence run over random histories (update / merge_phil string|object|file with and without only_scope, update_from_python, push / pop / set, stacks deeper than 100): working text, cache flags, stack depth, handed-out object and the whole _full_path_index (objects located by identity) after every operation; the oracle keeps its own stack of outstanding pushes and evaluates the four clauses after every step.'
+LEVEL_NOTE = 'Known finding D37. The style/menu half of the index is not modelled. D79 (merge_phil pruned the live tree before a refused fetch) fixed in /repo.'
 TECHNIQUE = 'Lean 4 invariant proofs over operation histories of a state machine (refinement; path index included) + differential correspondence'
 RULE = ("fully typed masters x histories of 1-25 operations over {update(text[, only_scope]), merge_phil(string / object[, only_scope]), merge_param_file, update_from_python, "
         "push_state, pop_state, set_state, get_python_object} with edit texts generated from the master; plus a stream of DEEP "
